@@ -275,7 +275,8 @@ def special_case(case):
 
         for skind in ("local", "base"):
             with World() as w:
-                odb = make_odb(skind, w.p("s"))
+                # (the store's path holds characters that mean something to str.format)
+                odb = make_odb(skind, os.path.join(w.p("pr{0}ject {x}"), "s"))
                 cache = make_odb("local", w.p("cache"))
                 ts, tw = TREE_OID["TS"], TREE_OID["TW"]
                 files = sorted(set(LISTING["TS"].values()) | set(LISTING["TW"].values()) | {MD5["e"]})
